@@ -378,6 +378,14 @@ def main(run):
     lib_ser = common.Shim(U.lib_path("ser"))
     if int(lib_ser.call("use_openmp")) != 0 or int(shim_omp.call("use_openmp")) != 1:
         raise RuntimeError("serial / OpenMP libraries are not distinct in this process")
+    # T-glue: Gen/GlueShapes.lean regenerated from the working tree's c/_phonopy.cpp; the glue_* theorems are about it
+    sys.path.insert(0, os.path.join(common.VERIF, "tools"))
+    import glue2lean
+
+    try:
+        glue2lean.generate(common.REPO, os.path.join(common.LEAN_DIR, "PhononModel", "Gen", "GlueShapes.lean"))
+    except Exception as ex:  # outside the translator's subset: the proof step cannot be about this glue
+        run.broke("proof", "tools/glue2lean.py could not translate c/_phonopy.cpp: %s" % ex)
     run.proof_step(leancheck=thorough)
 
     run.cov["rule"] = (
@@ -684,6 +692,17 @@ def main(run):
             lines.append("temp ir_grid_points %d %d %s" % (nir, len(gmt), U.ints(gmt)))
             owners.append(("temp", name, None, None, dict(kernel=name, table="ir_grid_points/weights"), None))
     run.cov["correspondence"]["distribute_fc2 calls with subset atom_list and done index >= len(atom_list)"] = subset_cases
+    # read footprints: table certificates of the model evaluated on the arrays the Python layer really passed
+    for name, args in cap.calls:
+        rq = U.reads_request(name, args)
+        if rq is None:
+            continue
+        for line_, arrays in (rq if isinstance(rq, list) else [rq]):
+            if "-" in line_:
+                run.violation("phonopy._phonopy.%s" % name, "index-table-out-of-range", "negative entry in an index table passed by the Python layer", dict(kernel=name, signature=U.sig_of(name, args)[1:]))
+                continue
+            lines.append(line_)
+            owners.append(("reads", name, None, None, dict(kernel=name, signature=U.sig_of(name, args)[1:]), {k_: int(v_.size * (2 if v_.dtype.kind == "c" else 1)) for k_, v_ in arrays.items()}))
     loop_reqs = ["loop dynmat_ij 1 3", "loop ddm 1 2", "loop dmq 2 3 2", "loop dd_kk 1 5", "loop borns 1 3", "loop tetra_freq 3 2 3 1",
                  "loop dos 4 3 2 5 2", "loop thermal 2 4 3", "loop iw 1 7", "loopfc 2 6 6 0 3", "loopfc 2 4 2 0 1"]
     for lr in loop_reqs:
@@ -706,6 +725,21 @@ def main(run):
             if sorted(model_m) != sorted(mallocs):
                 run.broke("correspondence", "heap temporaries of /repo/c (malloc element counts) differ from the ones the footprint model was written against",
                           sorted(set(mallocs) ^ set(model_m))[:6])
+            continue
+        if name == "reads":
+            run.count("read-footprint certificates", section="correspondence")
+            parts = ans.split()
+            if ans == "bad-op" or not parts[0].startswith("cert="):
+                run.broke("correspondence", "model rejected a read-footprint request", dict(info=info, request=req[:160]))
+                continue
+            fields = {p_.split(":")[0]: p_.split(":")[1:] for p_ in parts[1:]}
+            for an, actual in size.items():
+                if an in fields and int(fields[an][0]) != actual:
+                    run.broke("correspondence", "%s: array `%s` has %d elements, the model's shape relation gives %s (glue shape wiring / Python layer changed)" % (k, an, actual, fields[an][0]), info)
+            if parts[0] != "cert=true" or any(f_[2] != "true" for f_ in fields.values()):
+                bad = [n_ for n_, f_ in fields.items() if f_[2] != "true"]
+                run.violation("phonopy._phonopy.%s" % k, "index-table-out-of-range",
+                              "index tables passed by the Python layer fail the read-footprint certificate (reads of %s would leave the array)" % (bad or "an input"), info)
             continue
         if name == "temp":
             run.count("temporary-bounds certificates", section="correspondence")
